@@ -198,3 +198,14 @@ package tabula
 //@     invariant 0 <= i && visited == i && (i <= pageCount || pageCount < 0)
 //@     invariant forall k int :: {allPages[k]} 0 <= k && k < len(allPages) ==> 0 <= allPages[k].index && allPages[k].index < i
 //@     decreases pageCount - i
+
+// ---- C02: the padding of the preserve-layout rendering is bounded whatever positions the content stream gives ----
+//@ func (*Extractor) extractPreserveLayout results (res)
+//@   property C02
+//@   flags nosafety
+//@   callsite strings.Repeat(s, n) requires padding_is_bounded: n <= maxLayoutColumns
+//@   loop 3:
+//@     invariant 0 <= i && i <= gapInLines && gapInLines <= maxLayoutBlankLines
+//@     decreases gapInLines - i
+//@   loop 4:
+//@     invariant currentCol >= 0
